@@ -43,8 +43,32 @@ func rewriteNulls(c specgen.Components, s *specgen.Schema, v any, pred func(rs *
 	}
 	if v == nil {
 		if pred(rs) {
-			if nv, ok := exampleValid(c, rs); ok {
-				return nv, true
+			// prefer a replacement that does not contain the shape again (a recursive nullable
+			// object has valid instances with null members); otherwise rewrite the replacement too
+			vd := specgen.Validator{C: c}
+			ig := specgen.InstGen{C: c}
+			g := rapid.Custom(func(t *rapid.T) any { return ig.Gen(t, rs, 3) })
+			var fallback any
+			for seed := 0; seed < 60; seed++ {
+				cand := g.Example(seed)
+				if cand == nil {
+					continue
+				}
+				if ok, _ := vd.Valid(rs, cand); !ok {
+					continue
+				}
+				clean, ch := rewriteNulls(c, rs, cand, pred, depth+4)
+				if !ch {
+					return cand, true
+				}
+				if fallback == nil {
+					if ok, _ := vd.Valid(rs, clean); ok {
+						fallback = clean
+					}
+				}
+			}
+			if fallback != nil {
+				return fallback, true
 			}
 		}
 		return v, false
